@@ -71,10 +71,20 @@ def lpv_ref(ref, q):
     return None
 
 
-def check_state(col, trie, ref, hist, queries, mk=lambda k: list(k)):
+def check_state(col, trie, ref, hist, queries, mk=lambda k: list(k), deep=False):
     H = [[list(k), v] for k, v in hist]
     fn = "ural.classes.trie_dict.TrieDict"
-    msg = check_rep(trie, ref)
+    if deep:
+        # the reference walk below is recursive: give IT room, then put the interpreter's limit back before the library runs
+        import sys
+        old = sys.getrecursionlimit()
+        sys.setrecursionlimit(50000)
+        try:
+            msg = check_rep(trie, ref)
+        finally:
+            sys.setrecursionlimit(old)
+    else:
+        msg = check_rep(trie, ref)
     col.count("rep-invariant")
     if msg:
         col.violation("rep-invariant", fn, H, msg, "Inv(self) of contracts/trie_dict.py")
@@ -176,8 +186,10 @@ def main():
     rnd = random.Random(a.seed)
     nrand = 300 if a.tier == "quick" else 5000
     for i in range(nrand):
-        alpha = "abcdef"[: rnd.randint(2, 6)]
-        kind = rnd.choice(["str", "list", "tuple"])
+        # tokens are compared as they are: also characters that Unicode normalisation would merge or reorder (combining mark, precomposed
+        # letter, Angstrom / Kelvin signs), for which a str key and the list of its characters must stay the same key
+        alpha = "abcdef"[: rnd.randint(2, 6)] if i % 3 else ["e", "\u0301", "\u00e9", "\u212b", "\u00c5", "K", "\u212a"][: rnd.randint(2, 7)]
+        kind = rnd.choice(["str", "list", "tuple"]) if i % 3 else "str"
         mk = {"str": lambda k: "".join(k), "list": lambda k: list(k), "tuple": lambda k: tuple(k)}[kind]
         hist = []
         for _ in range(rnd.randint(4, 14)):
@@ -189,6 +201,12 @@ def main():
         col.nontriv(("rnd", i))
         if i < 3:
             col.sample({"random_history": [[list(k), v] for k, v in hist], "key_kind": kind})
+    # one very long key (the traversals must not depend on the interpreter's recursion limit)
+    deep = tuple("ab"[j % 2] for j in range(2500))
+    hist = [(deep[:1], 1), (deep, 2), (deep[:1200], None)]
+    trie, ref = replay_history(hist)
+    check_state(col, trie, ref, [(k[:3] + ("...%d tokens" % len(k),), v) for k, v in hist], [deep, deep[:1200], deep[:7], deep + ("a",)], deep=True)
+    col.nontriv(("deep", len(deep)))
     col.sample({"history": [[["a"], 1], [["a", "b"], None], [[], 2]], "queries": "all keys of length 0..4 on {a,b}"})
     col.exhaustive = True
     col.bounds = {"history_length": maxlen, "key_length": 3, "alphabet": list(ALPHA), "values": [1, 2, None],
